@@ -153,17 +153,59 @@ theorem unmarked_setLive (gs : List Obj) (f : Name) (o : Obj) (hf : findFunc gs 
 
 /-! ### how a run of `markLive` relates the list before and after -/
 
+/-- `gs'` is `gs` with some `is_live` flags set, position by position -/
+inductive LiveUpd : List Obj → List Obj → Prop where
+  | nil : LiveUpd [] []
+  | cons {o o' : Obj} {os os' : List Obj} : (o' = o ∨ o' = { o with isLive := true }) → LiveUpd os os' →
+      LiveUpd (o :: os) (o' :: os')
+
+theorem LiveUpd.rfl' : ∀ (gs : List Obj), LiveUpd gs gs
+  | [] => .nil
+  | _ :: os => .cons (Or.inl rfl) (LiveUpd.rfl' os)
+
+theorem LiveUpd.trans : ∀ {a b c : List Obj}, LiveUpd a b → LiveUpd b c → LiveUpd a c := by
+  intro a b c h1
+  induction h1 generalizing c with
+  | nil => intro h2; exact h2
+  | cons h hs ih =>
+    intro h2
+    cases h2 with
+    | cons h' hs' =>
+      refine .cons ?_ (ih hs')
+      rcases h with rfl | rfl <;> rcases h' with rfl | rfl <;> simp
+
+theorem liveUpd_setLive (gs : List Obj) (f : Name) : LiveUpd gs (setLive gs f) := by
+  unfold setLive updFunc
+  induction gs with
+  | nil => exact .nil
+  | cons o os ih =>
+    unfold updFirst
+    split
+    · exact .cons (Or.inr rfl) (LiveUpd.rfl' os)
+    · exact .cons (Or.inl rfl) ih
+
+theorem LiveUpd.mem {gs gs' : List Obj} (h : LiveUpd gs gs') {o' : Obj} (ho : o' ∈ gs') :
+    ∃ o, o ∈ gs ∧ (o' = o ∨ o' = { o with isLive := true }) := by
+  induction h with
+  | nil => cases ho
+  | cons hr _ ih =>
+    rcases List.mem_cons.mp ho with rfl | ho
+    · exact ⟨_, List.mem_cons_self, hr⟩
+    · obtain ⟨o, hm, hh⟩ := ih ho
+      exact ⟨o, List.mem_cons_of_mem _ hm, hh⟩
+
 structure Ext (gs gs' : List Obj) : Prop where
+  upd : LiveUpd gs gs'
   isFn : ∀ g, isFn gs' g = isFn gs g
   refs : ∀ g, refsOf gs' g = refsOf gs g
   mono : ∀ g, liveFn gs g = true → liveFn gs' g = true
   unm : unmarked gs' ≤ unmarked gs
   len : gs'.length = gs.length
 
-theorem Ext.rfl' (gs : List Obj) : Ext gs gs := ⟨fun _ => rfl, fun _ => rfl, fun _ h => h, Nat.le_refl _, rfl⟩
+theorem Ext.rfl' (gs : List Obj) : Ext gs gs := ⟨LiveUpd.rfl' gs, fun _ => rfl, fun _ => rfl, fun _ h => h, Nat.le_refl _, rfl⟩
 
 theorem Ext.trans {a b c : List Obj} (h1 : Ext a b) (h2 : Ext b c) : Ext a c :=
-  ⟨fun g => (h2.isFn g).trans (h1.isFn g), fun g => (h2.refs g).trans (h1.refs g),
+  ⟨h1.upd.trans h2.upd, fun g => (h2.isFn g).trans (h1.isFn g), fun g => (h2.refs g).trans (h1.refs g),
    fun g h => h2.mono g (h1.mono g h), Nat.le_trans h2.unm h1.unm, h2.len.trans h1.len⟩
 
 theorem Reach.ext {a b : List Obj} (h : Ext a b) {x y : Name} : Reach a x y ↔ Reach b x y := by
@@ -231,7 +273,7 @@ theorem markLive_spec : ∀ (n : Nat) (gs : List Obj) (f : Name) (S : Name → P
           show unmarked (setLive gs f) ≤ n
           omega
         have hext0 : Ext gs g0 :=
-          ⟨isFn_setLive gs f, refsOf_setLive gs f,
+          ⟨liveUpd_setLive gs f, isFn_setLive gs f, refsOf_setLive gs f,
            fun g h => by show liveFn (setLive gs f) g = true; rw [liveFn_setLive]; simp [h],
            by have := unmarked_setLive gs f o hf hl; show unmarked (setLive gs f) ≤ _; omega,
            length_setLive gs f⟩
